@@ -38,3 +38,17 @@ pub fn sched_point(id: u32) {
         f(id);
     }
 }
+
+thread_local! {
+    static MATCHED: Cell<Option<u64>> = const { Cell::new(None) };
+}
+
+/// Record the handle id of the fact an activation matched, right before its action runs.
+pub fn set_matched_handle(v: Option<u64>) {
+    MATCHED.with(|c| c.set(v));
+}
+
+/// Handle id recorded by the most recent `set_matched_handle` on this thread.
+pub fn matched_handle() -> Option<u64> {
+    MATCHED.with(|c| c.get())
+}
